@@ -1,4 +1,5 @@
 import Txtpp.Lemmas.Term
+import Txtpp.Lemmas.SeenClosure
 /-!
 # Property C05 — dependency cycles are reported, never hang, and spare the acyclic part
 -/
@@ -37,5 +38,9 @@ theorem acyclic_part_correct {C : Type} (w : World) (R : Sem C) (hR : RenderLoca
 /-- never hangs: the delivery bound of C03 does not assume acyclicity -/
 theorem cycles_terminate (w : World) (inputs U : List File) (n : Nat) (s : St) (h : ReachN w inputs n s)
     (hseen : s.seen.length ≤ U.length) : n ≤ 2 * U.length := Coord.terminates w inputs U n s h hseen
+
+theorem cycles_terminate_closed (w : World) (inputs U : List File) (hin : ∀ i ∈ inputs, i ∈ U)
+    (hcl : ∀ f ∈ U, ∀ d ∈ w.deps f, d ∈ U) (n : Nat) (s : St) (h : ReachN w inputs n s) : n ≤ 2 * U.length :=
+  terminates_closed w inputs U hin hcl n s h
 
 end C05
